@@ -51,7 +51,14 @@ func errPart(w *vc.Writer, r *vc.Rand) {
 		for origin := 0; origin < 4; origin++ { // 0 router, 1 stream creation, 2 target status, 3 target status on a server-streaming call after one message (already written)
 			for det := 0; det < 3; det++ { // 0 none, 1 resolvable, 2 type unknown to the target
 				for _, ov := range overrides {
-					for canc := 0; canc < 2; canc++ {
+					for canc := 0; canc < 4; canc++ {
+						// canc 2, 3: as 0, 1 but negotiated as Server-Sent Events (Accept: text/event-stream) on a server-streaming
+						// method: an error before the first event is still a JSON Status, labelled as such
+						sse := canc >= 2
+						canc := canc % 2
+						if sse && (origin == 0 || ov != 0) {
+							continue
+						}
 						if ov != 0 && origin != 0 {
 							continue
 						}
@@ -72,7 +79,7 @@ func errPart(w *vc.Writer, r *vc.Rand) {
 							encodable = false
 						}
 						conn := vfake.NewConn()
-						serverStreaming := origin == 3
+						serverStreaming := origin == 3 || sse
 						router := vfake.NewFlowRouter(conn, false, serverStreaming)
 						var err error = st.Err()
 						if ov != 0 {
@@ -94,6 +101,9 @@ func errPart(w *vc.Writer, r *vc.Rand) {
 						}
 						b := webbridge.NewTranscodedHTTPBridge(router, webbridge.TranscodedHTTPBridgeOpts{})
 						req := httptest.NewRequest("POST", "/x", strings.NewReader(`{"message":"hi"}`))
+						if sse {
+							req.Header.Set("Accept", "text/event-stream")
+						}
 						if canc == 1 {
 							ctx, cancel := context.WithCancel(req.Context())
 							cancel()
@@ -108,7 +118,8 @@ func errPart(w *vc.Writer, r *vc.Rand) {
 						var impl vc.Val
 						if written {
 							// nothing may be rendered after the first byte: the body is exactly the first record
-							if body := rec.Body.String(); rec.Code == 200 && strings.Count(body, "\n") == 1 && strings.HasSuffix(body, "\n") {
+							if body := rec.Body.String(); rec.Code == 200 && (!sse && strings.Count(body, "\n") == 1 && strings.HasSuffix(body, "\n") ||
+								sse && strings.HasPrefix(body, "data:") && strings.Count(body, "\n") == 2 && strings.HasSuffix(body, "\n\n")) {
 								impl = vc.L{}
 							} else {
 								impl = vc.L{rec.Code, vc.L{1, false}}
